@@ -234,6 +234,6 @@ SHARDS = {"quick": 8, "thorough": 16}
 ORACLES = [
     Oracle("rate_frame_rotation", rate_frame_case(), check_rate_frame, classify=classify_rate, quick=1200, thorough=10000),
     Oracle("rate_symmetry", rate_sym_case(), check_rate_symmetry, classify=classify_rate, quick=800, thorough=8000),
-    Oracle("texture_frame_rotation", tex_case(), check_texture_frame, classify=classify_tex, quick=64, thorough=600, shrink_seconds=180),
-    Oracle("texture_symmetry", tex_case(), check_texture_symmetry, classify=classify_tex, quick=64, thorough=600, shrink_seconds=180),
+    Oracle("texture_frame_rotation", tex_case(), check_texture_frame, classify=classify_tex, quick=64, thorough=300, shrink_seconds=180),
+    Oracle("texture_symmetry", tex_case(), check_texture_symmetry, classify=classify_tex, quick=64, thorough=300, shrink_seconds=180),
 ]
